@@ -58,6 +58,7 @@ pub fn run_line(line: &str, scratch: &str) -> String {
         "cov" => by_width!(c, op_cov, scratch),
         "reads" => by_width!(c, op_reads, scratch),
         "skfaults" => by_width!(c, op_skfaults, scratch),
+        "skchunks" => by_width!(c, op_skchunks, scratch),
         "build2" => by_width!(c, op_build2, scratch),
         "map" => by_width!(c, op_map, scratch),
         "alnw" => op_alnw(c),
@@ -660,6 +661,104 @@ fn op_skfaults<IntT: for<'a> UInt<'a>>(c: &Case, scratch: &str) -> String {
         different,
         join(&diffs),
         join(&frames)
+    )
+}
+
+/// `skchunks`: a large random table (generated here from `seed`, `rows` k-mers by `nsamp` samples,
+/// so that the file has many 64 KiB compression frames and several of them lie wholly inside one
+/// array of the struct), saved by the real code; then every bit of every chunk-type byte, and every
+/// bit of the three length bytes of the first and last `edge` chunks, is flipped and the damaged
+/// file goes through the real loader. A flipped type byte can turn a data chunk into a skippable
+/// one: the frame decoder then drops 64 KiB of the stream without any checksum failing, and only
+/// the structure of what remains can reject the file.
+fn op_skchunks<IntT: for<'a> UInt<'a>>(c: &Case, scratch: &str) -> String {
+    let dir = format!("{scratch}/skchunks");
+    std::fs::create_dir_all(&dir).unwrap();
+    let path = format!("{dir}/x.skf");
+    let k = c.usize("k");
+    let nsamp = c.usize("nsamp");
+    let mut r = crate::rng::Rng::new(c.usize("seed") as u64);
+    let mask: u128 = if 2 * (k - 1) >= 128 { u128::MAX } else { (1u128 << (2 * (k - 1))) - 1 };
+    let mut rows: HashMap<IntT, Vec<u8>> = HashMap::new();
+    let letters = b"ACGT-ACGTN";
+    for _ in 0..c.usize("rows") {
+        let key = parse_int::<IntT>(&format!("{}", r.u128() & mask));
+        let mut cells: Vec<u8> = (0..nsamp).map(|_| letters[r.below(letters.len())]).collect();
+        if cells.iter().all(|b| *b == b'-') {
+            cells[0] = b'A';
+        }
+        rows.insert(key, cells);
+    }
+    let mut names: Vec<String> = (0..nsamp).map(|i| format!("s{i}")).collect();
+    let mut d = MergeSkaDict::new(k, nsamp, true);
+    d.build_from_array(&mut names, &mut rows);
+    let a = MergeSkaArray::<IntT>::new(&d);
+    a.save(&path).unwrap();
+    let bytes = std::fs::read(&path).unwrap();
+    let good = load_any_full(&path).unwrap();
+    // chunk headers of the snappy frame format: type (1 byte), length (3 bytes LE), data
+    let mut headers: Vec<usize> = Vec::new();
+    let mut pos = 0usize;
+    while pos + 4 <= bytes.len() {
+        headers.push(pos);
+        let len = bytes[pos + 1] as usize | (bytes[pos + 2] as usize) << 8 | (bytes[pos + 3] as usize) << 16;
+        pos += 4 + len;
+    }
+    assert_eq!(pos, bytes.len(), "chunk walk must end at the end of the file");
+    let edge = c.usize_or("edge", 2);
+    let bad_path = format!("{dir}/bad.skf");
+    let (mut rejected, mut same, mut different) = (0usize, 0usize, 0usize);
+    let mut diffs: Vec<String> = Vec::new();
+    let mut work = bytes.clone();
+    let nh = headers.len();
+    for (ci, h) in headers.iter().enumerate() {
+        let width = if ci < edge + 1 || ci + edge >= nh { 4 } else { 1 };
+        for off in 0..width {
+            for bit in 0..8 {
+                work[h + off] ^= 1 << bit;
+                std::fs::write(&bad_path, &work).unwrap();
+                match load_any_full(&bad_path) {
+                    Err(_) => rejected += 1,
+                    Ok(s) if s == good => same += 1,
+                    Ok(_) => {
+                        different += 1;
+                        if diffs.len() < 5 {
+                            diffs.push(format!("c{ci}@{}+{off}.{bit}", h));
+                        }
+                    }
+                }
+                work[h + off] ^= 1 << bit;
+            }
+        }
+    }
+    // whole data chunks removed (what a skippable type makes of them), one at a time
+    for ci in 1..nh {
+        let h = headers[ci];
+        let end = if ci + 1 < nh { headers[ci + 1] } else { bytes.len() };
+        let mut cut = bytes[..h].to_vec();
+        cut.extend_from_slice(&bytes[end..]);
+        std::fs::write(&bad_path, &cut).unwrap();
+        match load_any_full(&bad_path) {
+            Err(_) => rejected += 1,
+            Ok(s) if s == good => same += 1,
+            Ok(_) => {
+                different += 1;
+                if diffs.len() < 5 {
+                    diffs.push(format!("drop-c{ci}"));
+                }
+            }
+        }
+    }
+    let _ = std::fs::remove_dir_all(&dir);
+    format!(
+        "len={} chunks={} rows={} rejected={} same={} different={} diffs={}",
+        bytes.len(),
+        nh,
+        a.ksize(),
+        rejected,
+        same,
+        different,
+        join(&diffs)
     )
 }
 
